@@ -236,8 +236,12 @@ def _joined_class(name, readers, cols):
     if not name.startswith("joined") or cols is None:
         return ""
     parts = readers[name][0].readers
-    if any(not set(p.get_column_names()) & set(cols) for p in parts):
-        return "no-column-from-one-subreader-"
+    idle = [type(p).__name__ for p in parts if not set(p.get_column_names()) & set(cols)]
+    if idle:
+        # the kind of sub-reader that is asked for none of its columns is part of the class (a CSV part and a
+        # Parquet part fail for different reasons)
+        kind = "parquet" if any("Parquet" in t for t in idle) else ("csv" if any("CSV" in t for t in idle) else "other")
+        return "no-column-from-one-%s-subreader-" % kind
     return ""
 
 
@@ -340,7 +344,9 @@ def _dedicated_computed_cases(ck, readers, n, seed):
             ck.case((name, n, ["c"], cs), nontrivial=cs < n)
             probs = run_reader_case(reader, allcols, colvals, n, ["c"], cs)
             for cls, text in probs:
-                ck.violation("computed-column-only-request", "%s columns=['c']: %s (%s)" % (name, text, cls),
+                src_kind = "parquet" if "parquet" in name else ("csv" if "csv" in name else "frame")
+                ck.violation("computed-column-only-request-over-%s" % src_kind,
+                             "%s columns=['c']: %s (%s)" % (name, text, cls),
                              {"reader": name, "n": n, "seed": seed, "columns": ["c"], "chunk_size": cs})
 
 
